@@ -17,9 +17,9 @@
    not of type i64 (former finding main-non-integer-result: the exit continuation of compile_main is typed with the
    body's annotation; since fix 5b8c76f of /repo the checker rejects such a main, so for CHECKED programs this
    clause is implied: Proof/Fun2CoreTyChecked.v prog_tyguard_src).
-   The capture guard is the negation of [shadowing_risk] (Model/Fun2Core.v), the syntactic detector of
-   the known finding capture-under-binder that modelrun wt-stages uses for its verdict: the translation
-   never places a continuation under a let variable / clause parameter whose name is free in it.
+   There is NO capture guard any more (it was the negation of [shadowing_risk], the syntactic detector of the
+   former finding capture-under-binder, repaired in /repo by <commitcap>): the translation never places a
+   continuation under a let variable / clause parameter whose name is free in it - it names the continuation first.
    ====================================================================================== *)
 From Coq Require Import List ZArith NArith String Bool.
 From SCC Require Import Base.Sexp Lang.SynUtil Lang.FunSyn Lang.FunTy Lang.CoreSyn.
@@ -227,10 +227,12 @@ Section TyGuard.
       end.
 
   (* one definition: parameters pairwise distinct and of declared types, body typed at the return type
-     (main: at i64, and no return continuation), no capture risk *)
+     (main: at i64, and no return continuation).  No capture clause: until fix <commitcap> of /repo the guard also
+     demanded [negb (shadowing_risk ..)]; the repaired translation keeps a continuation outside of binders whose names
+     it mentions, so shadowing is allowed *)
   Definition def_tyguard (d : fdef) : bool :=
     nodup_str (fvars (fdctx d)) && ctx_tyd (compile_ctx (fdctx d))
-    && tg (compile_ctx (fdctx d)) (fdbody d) && negb (shadowing_risk (f_is_codata p) (fdbody d) [])
+    && tg (compile_ctx (fdctx d)) (fdbody d)
     && (if String.eqb (fdname d) "main" then has_ty (fdbody d) CI64
         else has_ty (fdbody d) (compile_ty (fdret d)) && tyd (compile_ty (fdret d))).
 End TyGuard.
